@@ -1,12 +1,248 @@
 import GrinVerif.Drv.Common
-/-! Driver glue for the `codec` domain (line protocol handler). -/
+import GrinVerif.Model.Codec
+import GrinVerif.Model.SerBlock
+/-! Driver glue for the `codec` domain (line protocol handler): C11 decoder lines and C19 framing lines.
+
+    codec dec <D> <bin|buf> <ver> <hex>  => ok <consumed> <canon> <maxreq> | err <E> <maxreq> | panic <maxreq>
+    codec hex <utf8-hex>                 => ok <bytes> <maxreq> | err <maxreq> | panic <maxreq>
+    codec bound <D> <k> <len>            => <ok|err> <maxreq>        (decoders modelled by other domains:
+                                                                   only the allocation bound 16·len + k is checked)
+
+    codec run <ver> <[frag,frag,…]>      => [ev;ev;…;end:<E>:<bytes_read>[:<maxreq>]]   (C19, real `Codec`)
+    codec hs accept|initiate <genesis> <stream> => ok <version> | err <E>              (C19, real `Handshake`)
+    codec hs self                        => err PeerWithSelf
+
+`canon` = the decoded value re-encoded (`-` where the model carries no value); `maxreq` = largest single
+allocation request the real decoder made, checked against the model's requested allocation
+(`maxreq ≤ alloc + 16·len + 1024`). -/
 namespace GV.Drv.CodecD
-open GV GV.Drv
+open GV GV.Drv GV.Ser GV.Dec GV.Msg GV.Codec
 
 structure St where
   dummy : Unit := ()
 
-def handle (st : St) (_args : List String) (_impl : String) : St × Verdict :=
-  (st, .unknown)
+def realKey (b : Bytes) : Nat := ofBE (h256 b)
+
+def mkCfg (ver : Nat) : Cfg :=
+  { ver := ver, nrd := false, maxWeight := GV.Gen.TESTING_MAX_BLOCK_WEIGHT,
+    proofSize := GV.Gen.AUTOMATED_TESTING_PROOF_SIZE, key := realKey }
+
+/-- a plain `Ser` parser as a `Dec` (allocation charged = bytes consumed; only used for segment leaves) -/
+def liftA {α : Type} (q : Parser α) : Dec α := fun bs =>
+  match q bs with
+  | .ok (a, r) => .ok a r (bs.length - r.length)
+  | .error e => .err e 0
+
+def parseRdr : String → Option Rdr
+  | "bin" => some .bin
+  | "buf" => some .buf
+  | _ => none
+
+def parseNet : String → Option NetCfg
+  | "A" => some netAutomatedTesting
+  | "M" => some netMainnet
+  | "T" => some netTestnet
+  | _ => none
+
+/-- outcome → `(class text, alloc)` -/
+def render {α : Type} (canon : α → String) (len : Nat) : Outcome α → String × Nat
+  | .ok a r n => (s!"ok {len - r.length} {canon a}", n)
+  | .err e n => ("err " ++ e.name, n)
+  | .panic _ n => ("panic", n)
+
+def showHdr : HdrW → String
+  | .known t len => s!"known:{t}:{len}"
+  | .unknown len t => s!"unknown:{len}:{t}"
+
+def encSegCommon {α : Type} (encLeaf : α → Bytes) (s : Segment α) : Bytes :=
+  encSegmentId s.id ++ writeU64 s.hashes.length ++ (s.hashPos.map fun p => writeU64 (p + 1)).flatten ++
+  s.hashes.flatten ++ writeU64 s.leafData.length ++ (s.leafPos.map fun p => writeU64 (p + 1)).flatten ++
+  (s.leafData.map encLeaf).flatten ++ writeU64 s.proof.length ++ s.proof.flatten
+
+def noPayload : Payload Unit := fun _ _ => .err .corrupted 0
+
+/-- run decoder `d` of the table; `none` = unknown decoder name -/
+def runDec (d : String) (rd : Rdr) (ver : Nat) (bs : Bytes) : Option (String × Nat) :=
+  let len := bs.length
+  let body (t : Nat) : Option (String × Nat) :=
+    some (render (fun b => toHex (encBody (fun _ => []) b)) len (decBody noPayload rd t bs))
+  match d.splitOn ":" with
+  | ["hdr", net] => (parseNet net).map fun c => render showHdr len (decHeader c bs)
+  | ["hand"] => some (render (fun h => toHex (encHand h)) len (decHand rd bs))
+  | ["shake"] => some (render (fun h => toHex (encShake h)) len (decShake rd bs))
+  | ["peeraddr"] => some (render (fun a => toHex (encPeerAddr a)) len (decPeerAddr rd bs))
+  | ["peererror"] => some (render (fun (p : Nat × Bytes) => toHex (writeU32 p.1 ++ writeBytes p.2)) len (decPeerError rd bs))
+  | ["segid"] => some (render (fun s => toHex (encSegmentId s)) len (segmentId bs))
+  | ["body", t] => (nat? t).bind body
+  | ["merkle"] => some (render (fun p => toHex (encMerkleProof p)) len (merkleProof rd bs))
+  | ["segproof"] => some (render (fun (hs : List Bytes) => toHex (writeU64 hs.length ++ hs.flatten)) len (segmentProof rd bs))
+  | ["seg", "outid"] =>
+    some (render (fun s => toHex (encSegCommon encOutputId s)) len (segment rd (liftA decOutputId) 40 bs))
+  | ["seg", "kernel"] =>
+    some (render (fun s => toHex (encSegCommon (encTxKernel ver .full) s)) len
+      (segment rd (liftA (decTxKernel (mkCfg ver))) 128 bs))
+  | ["seg", "rproof"] =>
+    some (render (fun s => toHex (encSegCommon encRangeProof s)) len (segment rd (liftA decRangeProof) 688 bs))
+  | _ => none
+
+def showHexRes : HexRes → String
+  | .ok b => "ok " ++ toHex b
+  | .err => "err"
+  | .panic _ => "panic"
+
+/-- split `"<class…> <maxreq>"` -/
+def splitLast (impl : String) : Option (String × Nat) :=
+  match (impl.splitOn " ").reverse with
+  | m :: rest => (nat? m).map fun n => (" ".intercalate rest.reverse, n)
+  | [] => none
+
+/-- compare the class text exactly and the real peak request against the model's allocation -/
+def judge (cls : String) (alloc len : Nat) (impl : String) : Verdict :=
+  match splitLast impl with
+  | none => .unknown
+  | some (icls, maxreq) =>
+    if icls ≠ cls then .diff s!"{cls} alloc={alloc}"
+    else if maxreq > alloc + 16 * len + 1024 then .fail s!"{cls} alloc={alloc} (real request {maxreq} exceeds alloc+16*len+1024)"
+    else .ok
+
+/-! ### C19: the codec over fragments -/
+
+/-- `header_size_bytes(63)` for a proof of `proofSize` nonces -/
+def headerSizeMax (proofSize : Nat) : Nat :=
+  2 + 2 * 8 + 5 * 32 + 32 + 2 * 8 + (8 + 4 + 8 + 1 + packLen proofSize 63)
+
+abbrev DB := Body Unit
+abbrev DH := BlockHeader
+
+def drvEnv (ver : Nat) : Env DB DH :=
+  { net := netAutomatedTesting
+    hdrMax := headerSizeMax GV.Gen.AUTOMATED_TESTING_PROOF_SIZE
+    hdrMem := 400
+    decBody := fun t raw => match decBody noPayload .buf t raw with
+      | .ok v _ _ => .ok v
+      | .err e _ => .error e
+      | .panic _ _ => .error .corrupted
+    decItem := decBlockHeader (mkCfg ver) }
+
+/-- `Protocol::consume` answers `Consumed::Attachment` (size = `bytes`) to a `TxHashSetArchive` -/
+def drvAttach : Message DB DH → Option Nat
+  | .body _ (.txHashSetArchive _ _ bytes) => some bytes
+  | _ => none
+
+def checksumLoop : Bytes → Nat → Nat → Nat
+  | [], _, s => s
+  | x :: r, i, s => checksumLoop r (i + 1) ((s + x * (i % 251 + 1)) % 4294967291)
+
+/-- the `run` loop with the per-read byte counts the harness prints (same recursion as `Codec.run`) -/
+def runEvents (env : Env DB DH) : Nat → Codec DH → List Bytes → List String
+  | 0, _, _ => ["hang"]
+  | fuel+1, c, s =>
+    let o := read env fragOps c s
+    match o.res with
+    | .msg m =>
+      let ev := match m with
+        | .unknown t => s!"unknown:{t}:{o.bytesRead}"
+        | .body t v => s!"body:{t}:{toHex (encBody (fun _ => []) v)}:{o.bytesRead}"
+        | .headers hs rem =>
+          s!"headers:{hs.length}:{rem}:{toHex (hs.map (encBlockHeader GV.Gen.AUTOMATED_TESTING_PROOF_SIZE .full)).flatten}:{o.bytesRead}"
+        | .attachment rd left bytes => s!"att:{rd}:{left}:{checksumLoop bytes 0 0}:{o.bytesRead}"
+      let c' := match drvAttach m with
+        | some size => expectAttachment o.codec size
+        | none => some o.codec
+      match c' with
+      | none => [ev, "panic"]
+      | some c' => ev :: runEvents env fuel c' o.sock
+    | .err e => [s!"end:{e.name}:{o.bytesRead}"]
+    | .panic _ => ["panic"]
+    | .hang => ["hang"]
+
+def showHs : Except HsErr Nat → String
+  | .ok v => s!"ok {v}"
+  | .error .genesisMismatch => "err GenesisMismatch"
+  | .error .peerWithSelf => "err PeerWithSelf"
+  | .error .connectionClose => "err ConnectionClose"
+
+def LOCAL_PROTOCOL_VERSION : Nat := 1000
+
+/-- strip a trailing `:<maxreq>` of the `end:` event (refusal lines) -/
+def splitEndMaxreq (impl : String) : String × Option Nat :=
+  let inner := (impl.drop 1).dropEnd 1 |>.toString
+  let evs := inner.splitOn ";"
+  match evs.reverse with
+  | last :: rest =>
+    match last.splitOn ":" with
+    | ["end", e1, e2, br, mr] =>
+      (s!"[{";".intercalate (rest.reverse ++ [s!"end:{e1}:{e2}:{br}"])}]", mr.toNat?)
+    | ["end", e1, br, mr] =>
+      -- `end:BadMessage:11:77` (error name without a colon) vs `end:Ser:X:11` (no maxreq)
+      if e1 = "Ser" then (impl, none)
+      else (s!"[{";".intercalate (rest.reverse ++ [s!"end:{e1}:{br}"])}]", mr.toNat?)
+    | _ => (impl, none)
+  | [] => (impl, none)
+
+def handle (st : St) (args : List String) (impl : String) : St × Verdict :=
+  match args with
+  | ["run", ver, frags] =>
+    match nat? ver, parseHexList frags with
+    | some ver, some fr =>
+      let evs := runEvents (drvEnv ver) 100000 Codec.new fr
+      let model := s!"[{";".intercalate evs}]"
+      let (implCore, maxreq) := splitEndMaxreq impl
+      if implCore ≠ model then (st, .diff model)
+      else match maxreq with
+        | some m => if m ≤ 65536 then (st, .ok) else (st, .fail s!"{model} with at most 65536 bytes requested")
+        | none => (st, .ok)
+    | _, _ => (st, .unknown)
+  | ["hs", "self"] =>
+    let h : Hand := { version := 1000, capabilities := 0, nonce := 42, genesis := [1], totalDifficulty := 0,
+                      senderAddr := .v4 [0, 0, 0, 0] 0, receiverAddr := .v4 [0, 0, 0, 0] 0, userAgent := [] }
+    (st, cmpSpec (showHs (acceptDecision [1] LOCAL_PROTOCOL_VERSION (pushNonce [] 42) false h)) impl)
+  | ["hs", "accept", g, stream] =>
+    match parseHex g, parseHex stream with
+    | some g, some bs =>
+      let o := readMessage netAutomatedTesting GV.Gen.Msg.T_Hand (decHand .bin) bs
+      let model := match o.res with
+        | .ok h => showHs (acceptDecision g LOCAL_PROTOCOL_VERSION [] false h)
+        | .error e => "err " ++ e.name
+      (st, cmpSpec model impl)
+    | _, _ => (st, .unknown)
+  | ["hs", "initiate", g, stream] =>
+    match parseHex g, parseHex stream with
+    | some g, some bs =>
+      let o := readMessage netAutomatedTesting GV.Gen.Msg.T_Shake (decShake .bin) bs
+      let model := match o.res with
+        | .ok h => showHs (initiateDecision g LOCAL_PROTOCOL_VERSION false h)
+        | .error e => "err " ++ e.name
+      (st, cmpSpec model impl)
+    | _, _ => (st, .unknown)
+  | ["dec", d, rd, ver, hex] =>
+    match parseRdr rd, nat? ver, parseHex hex with
+    | some rd, some ver, some bs =>
+      match runDec d rd ver bs with
+      | some (cls, alloc) => (st, judge cls alloc bs.length impl)
+      | none => (st, .unknown)
+    | _, _, _ => (st, .unknown)
+  | ["hex", s] =>
+    match parseHex s with
+    | some bs => (st, judge (showHexRes (utilFromHex bs)) (utilFromHexAlloc bs) bs.length impl)
+    | none => (st, .unknown)
+  | ["merklehex", s] =>
+    match parseHex s with
+    | some bs =>
+      -- `from_hex` returns the proof only: `ok <canon>` / `err` / `panic`
+      let o := merkleProofFromHex bs
+      let cls := match o with
+        | .ok p _ _ => "ok " ++ toHex (encMerkleProof p)
+        | .err _ _ => "err"
+        | .panic _ _ => "panic"
+      (st, judge cls o.alloc bs.length impl)
+    | none => (st, .unknown)
+  | ["bound", _d, k, len] =>
+    match nat? k, nat? len, splitLast impl with
+    | some k, some len, some (_, maxreq) =>
+      if maxreq ≤ 16 * len + k then (st, .ok)
+      else (st, .fail s!"alloc ≤ {16 * len + k}")
+    | _, _, _ => (st, .unknown)
+  | _ => (st, .unknown)
 
 end GV.Drv.CodecD
